@@ -65,7 +65,6 @@ Definition fast_step (cap : N) (st : N * (res * mem * vecst)) : N * (res * mem *
 (* bound = number of jumps / growth steps allowed; the first component of the result is what is left to push *)
 Definition push_fast (bound n cap : N) (m : mem) (v : vecst) : N * (res * mem * vecst) :=
   N.iter bound (fast_step cap) (n, (ROk, m, v)).
-Definition PUSH_BOUND : N := 400000.
 
 (* ---- loops of guarded allocations that keep everything they allocate (closures, vec literals): per iteration
    the listed requests (ensure; charge unless marked as a second check) in order, then one push on the 8-byte `keep` vec.  The collector may run
@@ -127,7 +126,7 @@ Definition hl_run1 (cap : N) (o : hop) (n : Z) (limit used0 : N) : list Z :=
   let out (r : res) (m' : mem) (hc : Z) := [res_code r; Z.of_N (held m') - Z.of_N (held m); hc] in
   let lit (e : N) := mkVec 1 1 (SZ_VEC + e) e in
   let pushes (k : N) (m0 : mem) (v0 : vecst) :=
-    match push_fast PUSH_BOUND k cap m0 v0 with
+    match push_fast (k + 1) k cap m0 v0 with      (* every step consumes at least one push: k + 1 steps always suffice *)
     | (0%N, (r, m', _)) => out r m' 2
     | _ => [99; 0; 2]                                  (* bound exhausted: never equal to an observation *)
     end in
